@@ -12,6 +12,7 @@ import MinizProof.Model.Core
 import MinizProof.Model.DeflOut
 import MinizProof.Model.VecLoops
 import MinizProof.Model.CStream
+import MinizProof.Model.InflBytes
 namespace Driver
 open Spec
 
@@ -25,6 +26,9 @@ structure Acc where
   /-- model decoders of the correspondence leg: id ↦ (registers, output buffer) -/
   decs     : List (Nat × Model.Core.Regs × Array UInt8 × Array UInt8 × Nat) := []
   cacheDec : Option (String × Array UInt8 × Nat × Nat) := none   -- verdict, out, bytes, cmf
+  /-- byte-level `inflate()` sessions: id ↦ (flags, wrapper state, everything offered, model cursor,
+      implementation cursor, delivered by the model, delivered by the implementation, out of step) -/
+  ifbs     : List (Nat × Nat × Model.InflB.WB × Array UInt8 × Nat × Nat × Array UInt8 × Array UInt8 × Bool) := []
 
 def Acc.bump (a : Acc) (k : String) (n : Nat := 1) : Acc :=
   let rec go : List (String × Nat) → List (String × Nat)
@@ -512,6 +516,78 @@ def opIcall (a : Acc) (ln : Nat) (l : Line) : Acc := Id.run do
         a := a.diff ln l "adler" s!"model checksum {res.r.checkAdler32}, implementation {l.nat "adler"}"
     return a
 
+
+/-- `IFBNEW`: a fresh `InflateState` (raw: flags ignore-adler + more-input; zlib: parse + compute + more-input). -/
+def opIfbNew (a : Acc) (l : Line) : Acc :=
+  let id := l.nat "id"
+  let flags := if l.nat "zlib" == 1 then 1 + 8 + 2 else 64 + 2
+  { a with ifbs := (id, flags, Model.InflB.WB.fresh, #[], 0, 0, #[], #[], false) :: (a.ifbs.filter (·.1 != id)).take 4 }
+
+/-- one is a prefix of the other and they differ in length by at most `k` -/
+def prefixWithin (x y : Array UInt8) (k : Nat) : Bool :=
+  let n := min x.size y.size
+  firstDiff x y == n && x.size ≤ n + k && y.size ≤ n + k
+
+/-- `IFB`: one real `inflate()` call that does not ask to finish, replayed through the byte-level
+    wrapper model (`Model.InflB.inflateNone` over `Model.Core.decompress`): the model is offered what
+    it has itself left unconsumed followed by the new chunk. Status, bytes handed over and input
+    consumed must agree EXACTLY on every call, with one exception, the parked byte of `ICALL`: when
+    the implementation's last inner `decompress` call of this `inflate()` call ended has-more-output
+    (`last=2`: the window was filled to its end), it may have taken one stored-block byte more from
+    its bit buffer than the slow-path model; the two cursors may then differ by one and, if the
+    caller's input ended exactly there, the hand-over runs one byte apart until a later call has
+    room. From such a call until the two are level again, what has been delivered must stay a
+    prefix of one another within one byte, the cursors within one byte, and the totals must be equal
+    when both report stream end. Every such call is counted (`ifb_skew`). -/
+def opIfb (a : Acc) (ln : Nat) (l : Line) : Acc := Id.run do
+  let id := l.nat "id"
+  match a.ifbs.find? (·.1 == id) with
+  | none => return a.diff ln l "session" "unknown session id"
+  | some (_, flags, w, zbuf, mpos, ipos, mdel, idel, skew) =>
+    let a := { a with ifbs := a.ifbs.filter (·.1 != id) }
+    let zbuf := zbuf ++ l.bytes "in"
+    let inp := zbuf.extract mpos zbuf.size
+    let (w', res) := Model.InflB.inflateNone flags w inp (l.nat "room")
+    let out := l.bytes "out"
+    let st := l.int "st"
+    let mpos' := mpos + res.consumed
+    let ipos' := ipos + l.nat "c"
+    let mdel := mdel ++ res.out
+    let idel := idel ++ out
+    let exact := sameBytes res.out out && res.status == st && mpos' == ipos' && !skew
+    let mut a := a.bump "ifb"
+    a := a.bump s!"ifb_status_{res.status}"
+    let mut skew' := false
+    if exact then a := a.bump "ifb_exact"
+    else
+      let mayPark := skew || l.get "last" == "2"
+      let posOk := mpos' == ipos' || mpos' + 1 == ipos'
+      let outOk := prefixWithin mdel idel 1
+      let level := mdel.size == idel.size && mpos' == ipos'
+      let stOk := res.status == st || !level
+      if mayPark && posOk && outOk && stOk then
+        a := a.bump "ifb_skew"
+        skew' := !level
+      else
+        if res.status != st then a := a.diff ln l "status" s!"model status {res.status} vs implementation {st} (model consumed {res.consumed} out {res.out.size}; implementation consumed {l.nat "c"} out {out.size})"
+        else if !sameBytes res.out out then a := a.diff ln l "bytes" s!"handed-over bytes differ: model {res.out.size} bytes, implementation {out.size}, first difference at {firstDiff res.out out}"
+        else a := a.diff ln l "consumed" s!"model input position {mpos'}, implementation {ipos'}"
+    return { a with ifbs := (id, flags, w', zbuf, mpos', ipos', mdel, idel, skew') :: a.ifbs }
+
+/-- `IFF`: `inflate(fresh state, input, output, Finish)` — the first-call shortcut — replayed through
+    `Model.InflB.inflateFinishFirst`: status, input consumed, bytes written. -/
+def opIff (a : Acc) (ln : Nat) (l : Line) : Acc := Id.run do
+  let fmt := if l.nat "zlib" == 1 then 1 + 8 else 64
+  let (res, _) := Model.InflB.inflateFinishFirst fmt (l.bytes "in") (Array.replicate (l.nat "room") 0)
+  let mut a := a.bump "iff"
+  a := a.bump s!"iff_status_{res.status}"
+  let st := l.int "st"
+  if res.status != st then a := a.diff ln l "status" s!"model status {res.status} vs implementation {st}"
+  else
+    if res.status ≥ 0 && res.consumed != l.nat "c" then a := a.diff ln l "consumed" s!"model consumed {res.consumed}, implementation {l.nat "c"}"
+    if !sameBytes res.out (l.bytes "out") then a := a.diff ln l "bytes" s!"model wrote {res.out.size} bytes, implementation {(l.bytes "out").size}, first difference at {firstDiff res.out (l.bytes "out")}"
+  return a
+
 def dispatch (a : Acc) (ln : Nat) (l : Line) : Acc :=
   match l.op with
   | "ENC" => opEnc a ln l
@@ -529,6 +605,9 @@ def dispatch (a : Acc) (ln : Nat) (l : Line) : Acc :=
   | "CCALL" => opCcall a ln l
   | "INEW" => opInew a l
   | "ICALL" => opIcall a ln l
+  | "IFBNEW" => opIfbNew a l
+  | "IFB" => opIfb a ln l
+  | "IFF" => opIff a ln l
   | "" => a
   | "#" => a
   | _ => a.bump ("unknown_op_" ++ l.op)
